@@ -227,7 +227,7 @@ fn stress_round(rep: &mut Report, rng: &mut Rng, round: usize, lin: &mut (u64, u
     let nthreads = if miri { 3 } else { rng.range(2, 16) };
     let nkeys = if miri { 2 } else { rng.range(1, 8) };
     let per = if miri { 3 } else { rng.range(2, 10) };
-    let ncpu = *rng.pick(&[1usize, 2, 4, 8, 16]);
+    let ncpu = *rng.pick(&[1usize, 2, 3, 4, 6, 8, 12, 16]);
     let hot = round % 3 != 0;
     let mem = Mem::new("c01", if hot { Hot::Yes } else { Hot::No });
     mem.set_logging(false);
@@ -365,7 +365,7 @@ fn stress_round(rep: &mut Report, rng: &mut Rng, round: usize, lin: &mut (u64, u
 /// loader, i.e. provably after the cache-miss check and before any insertion.
 fn forced_miss(rep: &mut Report, rng: &mut Rng, round: usize) -> bool {
     let racers = if cfg!(miri) { 2 } else { rng.range(2, 8) };
-    let ncpu = *rng.pick(&[1usize, 2, 4, 8, 16]);
+    let ncpu = *rng.pick(&[1usize, 2, 3, 4, 6, 8, 12, 16]);
     let mem = Mem::new("c01f", if round % 2 == 0 { Hot::Yes } else { Hot::No });
     mem.set_logging(false);
     let name = format!("miss-{round}");
@@ -437,7 +437,7 @@ fn long_lived(rep: &mut Report, rng: &mut Rng, round: usize) {
     let miri = cfg!(miri);
     let nh = if miri { 6 } else { 64 };
     let inserts = if miri { 40 } else { 20_000 };
-    let ncpu = *rng.pick(&[1usize, 1, 2, 16]);
+    let ncpu = *rng.pick(&[1usize, 1, 2, 3, 16]);
     let mem = Mem::new("c01l", Hot::No);
     mem.set_logging(false);
     for i in 0..nh {
